@@ -182,6 +182,28 @@ int main()
                 e();
             pr_state(fx.st(0));
         }
+        else if (op == "commute")
+        {
+            // discard(n) then discard_subsequence(k), and the other order
+            u64 n = rd(is);
+            u64 k = rd(is);
+            XorwowState s0;
+            rd_state(is, s0);
+            fx.st(0) = s0;
+            {
+                auto e = fx.engine(0);
+                e.discard_subsequence(k);
+                e.discard(n);
+            }
+            pr_state(fx.st(0));
+            fx.st(0) = s0;
+            {
+                auto e = fx.engine(0);
+                e.discard(n);
+                e.discard_subsequence(k);
+            }
+            pr_state(fx.st(0));
+        }
         else if (op == "subseq")
         {
             u64 k = rd(is);
